@@ -579,7 +579,8 @@ def run(ctx):
         ctx.evaluations += 1
         pk[c['what']] = pk.get(c['what'], 0) + 1
         got = canon_v(g.get('v')) if 'v' in g else g.get('err', g)
-        if got != c['want'] and c.get('known') and ctx.known(c['known'], c):
+        # a listed finding excuses exactly its own symptom (the longer made-up name is unbound: the value is null), never a panic or an error
+        if got != c['want'] and c.get('known') and 'v' in g and got in (None, 'null') and ctx.known(c['known'], c):
             continue
         if got != c['want']:
             ctx.violation('`%s` (%s) with %s bound gives %s, expected %s' % (c['e'], c['what'], [name_new(p) for p in c['bound']], got, c['want']),
